@@ -645,12 +645,15 @@ class ExcelInPython:
             else:
                 range_and_criteria_zip[-1].append(i)
 
+        # a position counts when every pair accepts its cell, whatever the cell holds (a zero counts as well),
+        # and a cell that another pair has rejected is not handed to the remaining criteria
+        accepted = [True] * len(count_range)
         for [_range, criteria] in range_and_criteria_zip:
             for i in range(len(_range)):
-                if not criteria(_range[i]):
-                    count_range[i] = None
-        count_range = [i if count_condition(i) else None for i in count_range]
-        return len(list(filter(None, count_range)))
+                if accepted[i] and not criteria(_range[i]):
+                    accepted[i] = False
+
+        return len([i for i in range(len(count_range)) if accepted[i] and count_condition(count_range[i])])
         
     def _network_days(self, date_start: datetime.datetime, date_end: datetime.datetime,
                       holidays: List[List[datetime.datetime]] | None = None):
